@@ -308,7 +308,18 @@ SPECS["C15"] = {
                   "C15_framing_any_chunking (for all payload lists and ALL splittings of the byte stream into chunks the "
                   "incremental decoder yields exactly the frames in order, then end-of-stream), C15_framing_truncated_tail, "
                   "C15_framing_oversize, C15_framing_total; C15_fifo / C15_fifo_order for both in-memory channels at every "
-                  "capacity and op list. The shapes and tables the theorems are about are re-derived from /repo on every run "
+                  "capacity and op list. Close and flush clauses: C15_close_signals_end (Sink::poll_close on a framed transport "
+                  "reaches the byte stream and the reader sees end-of-stream right after the last message); for byte streams "
+                  "that buffer internally C15_frames_on_wire, C15_flush_ready_means_on_wire, C15_flush_pending_keeps_bytes, "
+                  "C15_send_flush_on_wire (a poll_flush that returned Ready(Ok) left codec and staging buffer empty and the "
+                  "frame on the wire; a Pending one loses and reorders nothing), C15_flush_skipping_refuted. JSON TEXT layer "
+                  "(coq/JsonText.v: compact printer, total parser): C15_json_text_roundtrip(_ws, _message, _response, "
+                  "_message_ws, _response_ws) - parse (print j) = Some j and decode_text (encode_text m) = Some m with any "
+                  "whitespace between tokens -, C15_json_text_cancel_no_trace, C15_json_parse_rejects. The ARRAY form serde_json "
+                  "accepts for every struct (audit F12): C15_json_array_form_schema (any well-formed shape), "
+                  "C15_json_array_form_decodes(_response), C15_json_array_form_text(_response), C15_json_array_trailing_defaults, "
+                  "C15_json_array_too_short, C15_json_array_too_long, C15_json_array_form_examples. "
+                  "The shapes and tables the theorems are about are re-derived from /repo on every run "
                   "(recording serializer, probing deserializer, parsed tables) and checked equal to the model's by "
                   "computation; the model's events, bytes and decoded items are compared with the real codecs inside Coq on "
                   "every generated script, and the monitor is evaluated on the implementation's traces.",
@@ -320,8 +331,8 @@ SPECS["C15"] = {
                   "reads them as f64, which no tarpc field admits), validation of UTF-8 in raw string bytes, serde_json's "
                   "recursion limit of 128 and its lenient scanner for ignored values (a lone surrogate inside an unknown "
                   "member is not rejected by serde_json). UTF-8 validity of bodies is not modelled; TCP/UDS sockets are "
-                  "represented by an arbitrary scripted byte stream. Boundary (refutation lemma C15_truncated_header_refuted, script in the design "
-                  "notes): a stream cut exactly after a 4-byte length header reads as a clean end-of-stream, not an error "
+                  "represented by an arbitrary scripted byte stream. Boundary (refutation lemma C15_truncated_header_refuted, the witness script is the "
+                  "known_witness of check C16, entry eof-after-length-header of KNOWN_FINDINGS.txt): a stream cut exactly after a 4-byte length header reads as a clean end-of-stream, not an error "
                   "(tokio-util decode_eof); C15 only demands that no frame is made up and the stream ends, the error clause is "
                   "checked by C16 (known finding there). "
                   "Correspondence is sampled, not proved.",
@@ -431,8 +442,11 @@ SRV_TB = AUDIT_TB + [
     "unbounded mpsc, futures Abortable (abort flag checked before the inner future is polled), Fuse, tokio-util "
     "DelayQueue at millisecond granularity (a timer is due when clock >= start + when_ms) are modelled, not "
     "verified; the order in which the real timer wheel hands out several due timers is replayed by an executable "
-    "copy of the wheel (coq/TimerWheel.v) that the theorems do not depend on: a disagreement would surface as the "
-    "observation OOracle, i.e. as a correspondence failure",
+    "copy of the wheel (coq/TimerWheel.v) that no single-channel monitor theorem depends on (the observer ignores "
+    "OOracle): a disagreement would surface as the observation OOracle, i.e. as a correspondence failure; inside the "
+    "clock range 2^36 - 1 - MAX_TIMEOUT ms the copy is proved a correct priority queue and to agree with the model's "
+    "due set (C16_dq_insert, C16_dq_poll, C16_server_oracle_agrees_cfg); the chain theorems are stated modulo oracle "
+    "agreement, which that clock range guarantees (C04_chain_no_oracle)",
     "server harness: virtual clock by clock_gettime interposition + tokio paused clock; every poll by hand outside "
     "any runtime task; scripted transport (Rust twin of Transport.v's stransport); handlers are scripted futures "
     "wrapped by the real InFlightRequest::execute; a poll is aborted after 10 000 transport calls",
@@ -492,7 +506,8 @@ SRV_ASSUME_ATOMIC = ("one op (one poll of the Requests stream, one poll or drop 
 SRV_ASSUME_B1 = ("reuse_only_after_completion (B1): the peer re-sends a request id only while it is surely in flight "
                  "(duplicate) or after a response bearing it was transmitted; necessary, see the _refuted theorem")
 SRV_ASSUME_STOP = ("stops_after_error: the application does not poll the Requests stream again after it yielded an "
-                   "error (tarpc's execute() stops there); the server does not latch transport failures")
+                   "error (tarpc's execute() stops there); the server does not latch transport failures; discharged for a "
+                   "channel driven through tarpc's own execute() adapter (the *_exec theorems)")
 SRV_ASSUME_CLOCK = ("virtual clock below 2^35 ms in the generated scripts; the exact range in which the timer-wheel transliteration is a correct priority queue and the server model's order oracle provably agrees is clock <= 2^36 - 1 - MAX_TIMEOUT = 37183476735 ms (C16_dq_poll, C16_server_oracle_agrees_cfg for every configuration; beyond it: TimerWheelWitness)")
 SRV_K1_WITNESS = "L=1,B=1,C=0,K=c|R1.1000.7.5 P X1.7 R2.1000.7.6 P"
 SRV_K2_WITNESS = "L=1,B=1,C=0,K=c|R1.100.7.5 P H0 r0 A400 P H0 r1 P H0"
@@ -685,19 +700,19 @@ def _server_spec(pid, parts, level_text, level_note, assumptions):
 
 SPECS["C08"] = _server_spec(
     "C08", [C08_PART], level_text="State-form theorems, for EVERY transport and every state (Properties/C08.v): a request whose id is tracked is refused by start_request (C08_duplicate_ignored); a response is handed to the transport only while its id is tracked and that untracks it, so at most one response per tracked incarnation leaves the channel (C08_response_tracked_written_once); a response for an untracked id (cancelled, expired, already answered) is dropped without any transport call (C08_response_untracked_dropped); the hypothesis reuse_only_after_completion is necessary (C08_reuse_after_cancel_refuted, B1: the second request is answered with the first handler's value). The full trace-level property (every request read is yielded exactly once or ignored as a duplicate; every response written answers the latest open incarnation of its id with exactly the value its handler completed with; nothing after the channel is dropped) is the executable monitor c08_ok (coq/ServerMon.v), evaluated inside Coq on the observations of the REAL BaseChannel -> [MaxRequests] -> Requests -> InFlightRequest::execute for hundreds (thorough: 16 000 + a 33 614-script exhaustive sweep) of generated scripts, each also replayed on the model coq/Server.v and compared observation by observation.",
-    level_note="Trusted: Coq kernel, vm_compute, the Rust harness (scripted transport, virtual clock by clock_gettime interposition, hand polling) and the Python driver. Modelled, not verified: tokio bounded/unbounded mpsc, futures Abortable, Fuse, tokio-util DelayQueue (ms granularity; the order among several due timers is replayed by an executable copy of the timer wheel that no theorem depends on). Correspondence between coq/Server.v and the real BaseChannel/Requests/MaxRequests/execute is sampled (every transport call, yield, handler event and both gauges compared inside Coq), not proved. The observer/model simulation (coq/ServerSim*.v) is proved along every run for every transport (ServerSim6.run_top: the unconditional invariant InvU through every polling loop, poll result and application-side op) and two verdict flags are threaded through it (ServerSim7.server_never_early: trace well formed, no early abort); the theorem 'the full monitor accepts every run of the model' is PROVED for every transport, environment, configuration and op list (statements pinned in coq/ServerSpec.v, proofs coq/ServerProofsP*.v over the hypothesis-dependent invariant InvH, restated as the *_monitor theorems of Properties) and the monitor is also evaluated on the real code's traces on every run. Hypotheses: reuse_only_after_completion (B1), stops_after_error, one op is atomic.",
+    level_note="Trusted: Coq kernel, vm_compute, the Rust harness (scripted transport, virtual clock by clock_gettime interposition, hand polling) and the Python driver. Modelled, not verified: tokio bounded/unbounded mpsc, futures Abortable, Fuse, tokio-util DelayQueue (ms granularity; the order among several due timers is replayed by an executable copy of the timer wheel that no single-channel monitor theorem depends on; inside the clock range 2^36 - 1 - MAX_TIMEOUT ms it is proved a correct priority queue that agrees with the model's due set: C16_dq_poll, C16_server_oracle_agrees_cfg). Correspondence between coq/Server.v and the real BaseChannel/Requests/MaxRequests/execute is sampled (every transport call, yield, handler event and both gauges compared inside Coq), not proved. The observer/model simulation (coq/ServerSim*.v) is proved along every run for every transport (ServerSim6.run_top: the unconditional invariant InvU through every polling loop, poll result and application-side op) and two verdict flags are threaded through it (ServerSim7.server_never_early: trace well formed, no early abort); the theorem 'the full monitor accepts every run of the model' is PROVED for every transport, environment, configuration and op list (statements pinned in coq/ServerSpec.v, proofs coq/ServerProofsP*.v over the hypothesis-dependent invariant InvH, restated as the *_monitor theorems of Properties) and the monitor is also evaluated on the real code's traces on every run. Hypotheses: reuse_only_after_completion (B1), stops_after_error, one op is atomic.",
     assumptions=[SRV_ASSUME_ATOMIC, SRV_ASSUME_B1, SRV_ASSUME_STOP])
 SPECS["C12"] = _server_spec(
     "C12", [C12_PART], level_text="Theorems for EVERY transport, configuration (L = 0 included) and op list (Properties/C12.v): MaxRequests::poll_next hands a request on only if with it at most L are tracked (C12_maxreq_below_limit), and in every run the in-flight gauge right after a yield is at most L (C12_yield_within_limit, by induction over op lists with the invariant 'timer queue and request table hold the same ids'). K1: the clause 'refused only if L really were in flight' is false of the code; the witness theorem C12_freed_in_same_poll_witness shows request 2 throttled with 0 in flight, rejected by the full monitor and accepted by the relaxed one. Clauses (b) exactly one throttle reply per refused request, never yielded, and (c) outside the class FreedInSamePoll are the executable monitors c12_ok / c12_rel_ok (coq/ServerMon.v), evaluated on the real code's traces for every generated script (limits 0..3, cancels adjacent to requests, sink not ready), each also replayed on the model and compared; a rejection is a KNOWN-FINDING only if the relaxed monitor, which exempts exactly the obligations that arise after capacity was freed earlier in the same Requests poll, accepts the shrunk script.",
-    level_note="Trusted: Coq kernel, vm_compute, the Rust harness (scripted transport, virtual clock by clock_gettime interposition, hand polling) and the Python driver. Modelled, not verified: tokio bounded/unbounded mpsc, futures Abortable, Fuse, tokio-util DelayQueue (ms granularity; the order among several due timers is replayed by an executable copy of the timer wheel that no theorem depends on). Correspondence between coq/Server.v and the real BaseChannel/Requests/MaxRequests/execute is sampled (every transport call, yield, handler event and both gauges compared inside Coq), not proved. The observer/model simulation (coq/ServerSim*.v) is proved along every run for every transport (ServerSim6.run_top: the unconditional invariant InvU through every polling loop, poll result and application-side op) and two verdict flags are threaded through it (ServerSim7.server_never_early: trace well formed, no early abort); the theorem 'the full monitor accepts every run of the model' is PROVED for every transport, environment, configuration and op list (statements pinned in coq/ServerSpec.v, proofs coq/ServerProofsP*.v over the hypothesis-dependent invariant InvH, restated as the *_monitor theorems of Properties) and the monitor is also evaluated on the real code's traces on every run. Known finding K1 (FreedInSamePoll) is reproduced on every run from its committed witness. The expiry variant of K1 (capacity freed by an expiry in the same inner poll) is only visible to the model-level class, not to the observer's count.",
-    assumptions=[SRV_ASSUME_ATOMIC])
+    level_note="Trusted: Coq kernel, vm_compute, the Rust harness (scripted transport, virtual clock by clock_gettime interposition, hand polling) and the Python driver. Modelled, not verified: tokio bounded/unbounded mpsc, futures Abortable, Fuse, tokio-util DelayQueue (ms granularity; the order among several due timers is replayed by an executable copy of the timer wheel that no single-channel monitor theorem depends on; inside the clock range 2^36 - 1 - MAX_TIMEOUT ms it is proved a correct priority queue that agrees with the model's due set: C16_dq_poll, C16_server_oracle_agrees_cfg). Correspondence between coq/Server.v and the real BaseChannel/Requests/MaxRequests/execute is sampled (every transport call, yield, handler event and both gauges compared inside Coq), not proved. The observer/model simulation (coq/ServerSim*.v) is proved along every run for every transport (ServerSim6.run_top: the unconditional invariant InvU through every polling loop, poll result and application-side op) and two verdict flags are threaded through it (ServerSim7.server_never_early: trace well formed, no early abort); the theorem 'the full monitor accepts every run of the model' is PROVED for every transport, environment, configuration and op list (statements pinned in coq/ServerSpec.v, proofs coq/ServerProofsP*.v over the hypothesis-dependent invariant InvH, restated as the *_monitor theorems of Properties) and the monitor is also evaluated on the real code's traces on every run. Known finding K1 (FreedInSamePoll) is reproduced on every run from its committed witness. The expiry variant of K1 (capacity freed by an expiry in the same inner poll) is only visible to the model-level class, not to the observer's count.",
+    assumptions=[SRV_ASSUME_ATOMIC, SRV_ASSUME_B1])
 SPECS["C06"] = _server_spec(
     "C06", [C06_PART], level_text="State-form theorems, for EVERY transport and every state (Properties/C06.v): the timer armed for a request is due at min(deadline, now + 365 days) or later (C06_timer_not_before_deadline; the F5 clamp is part of the statement); expiry only ever takes a due timer, aborts exactly that request and leaves the others (C06_expiry_never_early, C06_expiry_frame); when BaseChannel::poll_next goes idle no timer is due and no server-side cancel is pending (C06_idle_means_enforced); an aborted execute() never polls its handler again (C04_aborted_never_progresses). Trace form, by induction over op lists with the observer/model simulation invariant (coq/ServerSim*.v): C06_never_early_monitor - in EVERY run, for every transport whose fuel measure decreases with each item it hands out, no execute() ends without its handler having completed unless the request's Cancel was read, its deadline timer was due or the channel was dropped, and the trace is well formed. K2: with MaxRequests at its limit and the sink not ready the inner channel is not polled, so enforcement waits for the sink: witness theorem C06_limiter_blocked_on_sink_witness. The trace-level property (no abort before the timer is due; no handler progress and nothing written after the poll that had to process the expiry; other requests unaffected) is the executable monitor c06_ok / c06_rel_ok, evaluated on the real code's traces under a virtual clock stepped to deadline-1 / deadline / deadline+1, with deadlines from already expired to beyond the timer range, with and without limiter, sink ready or not; each script is also replayed on the model and compared.",
-    level_note="Trusted: Coq kernel, vm_compute, the Rust harness (scripted transport, virtual clock by clock_gettime interposition, hand polling) and the Python driver. Modelled, not verified: tokio bounded/unbounded mpsc, futures Abortable, Fuse, tokio-util DelayQueue (ms granularity; the order among several due timers is replayed by an executable copy of the timer wheel that no theorem depends on). Correspondence between coq/Server.v and the real BaseChannel/Requests/MaxRequests/execute is sampled (every transport call, yield, handler event and both gauges compared inside Coq), not proved. The observer/model simulation (coq/ServerSim*.v) is proved along every run for every transport (ServerSim6.run_top: the unconditional invariant InvU through every polling loop, poll result and application-side op) and two verdict flags are threaded through it (ServerSim7.server_never_early: trace well formed, no early abort); the theorem 'the full monitor accepts every run of the model' is PROVED for every transport, environment, configuration and op list (statements pinned in coq/ServerSpec.v, proofs coq/ServerProofsP*.v over the hypothesis-dependent invariant InvH, restated as the *_monitor theorems of Properties) and the monitor is also evaluated on the real code's traces on every run. Known finding K2 (LimiterBlockedOnSink) is reproduced on every run from its committed witness. Hypotheses: virtual clock below 2^35 ms (the DelayQueue's idle-wheel range is an environment hypothesis of C16); deadlines more than 365 days away are enforced after 365 days (F5 clamp); reuse_only_after_completion and stops_after_error for the clause 'no progress after expiry'.",
+    level_note="Trusted: Coq kernel, vm_compute, the Rust harness (scripted transport, virtual clock by clock_gettime interposition, hand polling) and the Python driver. Modelled, not verified: tokio bounded/unbounded mpsc, futures Abortable, Fuse, tokio-util DelayQueue (ms granularity; the order among several due timers is replayed by an executable copy of the timer wheel that no single-channel monitor theorem depends on; inside the clock range 2^36 - 1 - MAX_TIMEOUT ms it is proved a correct priority queue that agrees with the model's due set: C16_dq_poll, C16_server_oracle_agrees_cfg). Correspondence between coq/Server.v and the real BaseChannel/Requests/MaxRequests/execute is sampled (every transport call, yield, handler event and both gauges compared inside Coq), not proved. The observer/model simulation (coq/ServerSim*.v) is proved along every run for every transport (ServerSim6.run_top: the unconditional invariant InvU through every polling loop, poll result and application-side op) and two verdict flags are threaded through it (ServerSim7.server_never_early: trace well formed, no early abort); the theorem 'the full monitor accepts every run of the model' is PROVED for every transport, environment, configuration and op list (statements pinned in coq/ServerSpec.v, proofs coq/ServerProofsP*.v over the hypothesis-dependent invariant InvH, restated as the *_monitor theorems of Properties) and the monitor is also evaluated on the real code's traces on every run. Known finding K2 (LimiterBlockedOnSink) is reproduced on every run from its committed witness. Hypotheses: none on the clock for the monitor theorems (the observer ignores OOracle); the generated scripts stay below 2^35 ms and the order oracle provably agrees up to 2^36 - 1 - MAX_TIMEOUT = 37183476735 ms (C16_server_oracle_agrees_cfg; the DelayQueue range beyond it is the environment hypothesis dq_env of C16); deadlines more than 365 days away are enforced after 365 days (F5 clamp); reuse_only_after_completion and stops_after_error for the clause 'no progress after expiry'.",
     assumptions=[SRV_ASSUME_ATOMIC, SRV_ASSUME_B1, SRV_ASSUME_STOP, SRV_ASSUME_CLOCK])
 SPECS["C04"] = _server_spec(
-    "C04", [C04_PART, C04_CHAIN_PART], level_text="State-form theorems, for EVERY transport and every state (Properties/C04.v): a Cancel for a tracked id sets the abort flag of that request's handle, forgets the request (in-flight count drops) and removes its timer (C04_cancel_stops_tracked); an execute() whose handle is aborted never polls its handler again and buffers no response (C04_aborted_never_progresses); a Cancel for an untracked id leaves the state unchanged (C04_cancel_unknown_frame); cascade: over the abstract composition of an n-node chain, abandoning the head call leaves no unfinished handler, by induction on the depth (C04_cascade_partial: the two client-side facts - handler drop abandons its call; an abandoned transmitted call is cancelled on the wire - and the server-side fact are hypotheses of the statement, to be discharged from the client lemmas and from (a) + the abort waker contract). The hypothesis reuse_only_after_completion is necessary (_refuted witness). Trace level: the monitor c04_ok on the real server's traces with a Cancel at every position relative to handler start, completion, response buffering and response write, 1..4 concurrent requests, with/without limiter, sink-not-ready periods; and REAL chains of depth 1..3 (client::new + BaseChannel::requests per node, nested calls with the handler's context, wake-driven, virtual time) checked by c04_chain_ok: after abandonment (or the deadline) and quiescence every started handler has ended and every server has 0 in flight.",
-    level_note="Trusted: Coq kernel, vm_compute, the Rust harness (scripted transport, virtual clock by clock_gettime interposition, hand polling) and the Python driver. Modelled, not verified: tokio bounded/unbounded mpsc, futures Abortable, Fuse, tokio-util DelayQueue (ms granularity; the order among several due timers is replayed by an executable copy of the timer wheel that no theorem depends on). Correspondence between coq/Server.v and the real BaseChannel/Requests/MaxRequests/execute is sampled (every transport call, yield, handler event and both gauges compared inside Coq), not proved. The observer/model simulation (coq/ServerSim*.v) is proved along every run for every transport (ServerSim6.run_top: the unconditional invariant InvU through every polling loop, poll result and application-side op) and two verdict flags are threaded through it (ServerSim7.server_never_early: trace well formed, no early abort); the theorem 'the full monitor accepts every run of the model' is PROVED for every transport, environment, configuration and op list (statements pinned in coq/ServerSpec.v, proofs coq/ServerProofsP*.v over the hypothesis-dependent invariant InvH, restated as the *_monitor theorems of Properties) and the monitor is also evaluated on the real code's traces on every run. Part `chain` (wake-driven real chains through the srv driver) has no model: its monitor alone decides; part `compose` compares the composition model Chain.v observation by observation. C04_cascade_partial (abstract composition with hypotheses) is kept for reference and superseded by C04_chain_cascade. Waker behaviour (abort wakes the execute() task) is assumed, not modelled.",
+    "C04", [C04_PART, C04_CHAIN_PART], level_text="State-form theorems, for EVERY transport and every state (Properties/C04.v): a Cancel for a tracked id sets the abort flag of that request's handle, forgets the request (in-flight count drops) and removes its timer (C04_cancel_stops_tracked); an execute() whose handle is aborted never polls its handler again and buffers no response (C04_aborted_never_progresses); a Cancel for an untracked id leaves the state unchanged (C04_cancel_unknown_frame); the cascade clause is C04_chain_cascade (part compose, below). The hypothesis reuse_only_after_completion is necessary (C04_reuse_after_cancel_refuted). Part server: the monitor c04_ok on the real server's traces with a Cancel at every position relative to handler start, completion, response buffering and response write, 1..4 concurrent requests, with/without limiter, sink-not-ready periods. Part chain (monitor only, no model): wake-driven real chains of depth 1..3 (client::new + BaseChannel::requests per node, nested calls with the handler's context, virtual time) checked by c04_chain_ok: after abandonment (or the deadline) and quiescence every started handler has ended and every server has 0 in flight.",
+    level_note="Trusted: Coq kernel, vm_compute, the Rust harness (scripted transport, virtual clock by clock_gettime interposition, hand polling) and the Python driver. Modelled, not verified: tokio bounded/unbounded mpsc, futures Abortable, Fuse, tokio-util DelayQueue (ms granularity; the order among several due timers is replayed by an executable copy of the timer wheel that no single-channel monitor theorem depends on; inside the clock range 2^36 - 1 - MAX_TIMEOUT ms it is proved a correct priority queue that agrees with the model's due set: C16_dq_poll, C16_server_oracle_agrees_cfg). Correspondence between coq/Server.v and the real BaseChannel/Requests/MaxRequests/execute is sampled (every transport call, yield, handler event and both gauges compared inside Coq), not proved. The observer/model simulation (coq/ServerSim*.v) is proved along every run for every transport (ServerSim6.run_top: the unconditional invariant InvU through every polling loop, poll result and application-side op) and two verdict flags are threaded through it (ServerSim7.server_never_early: trace well formed, no early abort); the theorem 'the full monitor accepts every run of the model' is PROVED for every transport, environment, configuration and op list (statements pinned in coq/ServerSpec.v, proofs coq/ServerProofsP*.v over the hypothesis-dependent invariant InvH, restated as the *_monitor theorems of Properties) and the monitor is also evaluated on the real code's traces on every run. Part `chain` (wake-driven real chains through the srv driver) has no model: its monitor alone decides; part `compose` compares the composition model Chain.v observation by observation. C04_cascade_partial (abstract composition with hypotheses) is kept for reference and superseded by C04_chain_cascade. Waker behaviour (abort wakes the execute() task) is assumed, not modelled.",
     assumptions=[SRV_ASSUME_ATOMIC, SRV_ASSUME_B1, SRV_ASSUME_STOP])
 
 # ---------------------------------------------------------------------------------------------
@@ -757,7 +772,7 @@ SPECS["C14"] = {
                   "RequestDispatch by replaying generated scripts (not-ready sinks, capacity-1 coupled/independent "
                   "transports, faults) and comparing every transport call inside Coq; the same monitor runs on the real "
                   "call logs and a poll is aborted after 10 000 transport calls.",
-    "level_note": "Server half (Requests/MaxRequests) is being added; until then C14 is claimed for the client dispatch only. "
+    "level_note": "Client and server halves are both claimed (see level_text): the raw Requests stream up to the first poll that yields an error (stops_after_error), every poll through tarpc's own execute(). "
                   "Trusted: Coq kernel, vm_compute, harness, driver. Modelled not verified: tokio/futures primitives. "
                   "Correspondence is sampled. The repaired ensure_writeable (fix: 67e6e2e) is what the model describes; the "
                   "pre-fix spin is re-detected when that commit is reverted.",
@@ -766,8 +781,8 @@ SPECS["C14"] = {
                     "fewer than 2^64 operations where a statement says no_wrap"],
 }
 
-# flipped by the lead once the generated client stubs return an error instead of `unreachable!()`
-# for a response of another method's variant (until then that case class panics on the real code)
+# True since fix 8afb23d (F7): the generated client stubs return an error instead of `unreachable!()`
+# for a response of another method's variant (before it that case class panicked on the real code)
 C16_WRONG_VARIANT = True
 
 SPECS["C16"] = {
@@ -832,7 +847,18 @@ SPECS["C16"] = {
                   "Panic, serves every probe, sends every call and ends a stream cut inside a frame with an error; they rest on "
                   "C16_decode_no_panic, C16_arm_no_panic, C16_field_no_panic, C16_server_no_panic, C16_client_no_panic over "
                   "EVERY Duration in u64 x [0,10^9), EVERY Instant chosen by a caller and every clock value in the stated "
-                  "environment ranges. The pre-fix behaviours are documented by C16_*_prefix_refuted with concrete witnesses. "
+                  "environment ranges (C16_std_env_ok / C16_std_env_aged_ok: the harness's clocks and quiet ages lie inside them; "
+                  "C16_wheel_env_necessary, C16_arm_lag_refuted, C16_aged_lag_refuted: the ranges are needed); a stream of "
+                  "frames cut inside its last frame ends with an error on the full transport model too "
+                  "(C16_truncated_frames_error; header-only cut: C16_truncation_header_refuted, known finding). The pre-fix "
+                  "behaviours are documented by C16_*_prefix_refuted with concrete witnesses. The timer queue itself: the "
+                  "transliteration of tokio-util's DelayQueue wheel (coq/TimerWheel.v, third-party: modelled) is proved a "
+                  "correct priority queue inside its range - C16_dq_init, C16_dq_insert, C16_dq_poll (never early, complete, "
+                  "no loss or duplication, least deadline first) - and the server model's order oracle provably agrees with "
+                  "the model's due set for every configuration, transport and op list while the clock stays at or below "
+                  "2^36 - 1 - MAX_TIMEOUT ms (C16_server_oracle_agrees, C16_server_oracle_agrees_cfg); beyond the range it is "
+                  "not (TimerWheelWitness; C16_dq_incomplete_inside_insert_contract: a candidate tokio-util defect near the "
+                  "2^36 ms maximum, irrelevant to tarpc's clamped timeouts, shown on the transliteration only). "
                   "The constants and the three repairs the model relies on are re-derived from /repo on every run "
                   "(GenChecks/C16.v); the model's observations are compared with a real server, a real client dispatch and "
                   "the real framed decoders inside Coq on every generated script.",
@@ -844,7 +870,8 @@ SPECS["C16"] = {
                   "quiet for more than 2^36-1 ms minus MAX_TIMEOUT (about 430 days) before a request arrives. Known finding "
                   "(KNOWN_FINDINGS eof-after-length-header, lemma C16_truncation_header_refuted): a stream cut exactly after "
                   "a 4-byte length header ends cleanly instead of with an error. The wrong-variant response class "
-                  "(generated client stubs) is generated only when C16_WRONG_VARIANT is set. Correspondence is sampled.",
+                  "(generated client stubs) is generated (C16_WRONG_VARIANT = True since fix 8afb23d: the stubs return an "
+                  "error instead of panicking). Correspondence is sampled.",
     "design_ref": "DESIGN.md section 6 (C16)",
     "assumptions": [
         "monotonic clock: Instant::now() stays at least MAX_TIMEOUT + 1 s below i64::MAX seconds (mono_env)",
@@ -971,7 +998,9 @@ SPECS["C07"] = {
                   "max(0, D - ts). Underneath: C07_deadline_hop (one hop, exact), C07_deadline_chain / _chain_late (n hops by "
                   "induction: 0 <= D_n - D_0 <= sum of transit times), C07_hop_total (never an error), C07_default_deadline, "
                   "C07_json_deadline_omitted, C07_duration_exact_bincode / _json (the Duration is carried exactly by both "
-                  "codecs, from the C15 round trips). The default, MAX_TIMEOUT, the checked add and the serde shape of the "
+                  "codecs, from the C15 round trips), and for the JSON TEXT layer C07_json_text_deadline_omitted (a request "
+                  "written without a `deadline` member, any whitespace, parses and is marked omitted) and "
+                  "C07_duration_exact_json_text. The default, MAX_TIMEOUT, the checked add and the serde shape of the "
                   "context are re-derived from /repo on every run; the model's observations are compared with real 1-3 hop "
                   "chains inside Coq on every generated script.",
     "level_note": "Trusted: Coq kernel, vm_compute, translator, Rust harness (incl. the clock interposition), Python driver. "
@@ -1083,16 +1112,18 @@ SPECS["C02"] = {
                   "C02_dead_resolved (after the dispatch failed or was dropped no call is left unresolved), "
                   "C02_quiescent_resolved (on a writable transport a still-unresolved call waits only for a reply or a "
                   "deadline: something is in flight, every timer lies in the future, its request is in flight or queued "
-                  "behind a full table), C02_poll_total (every dispatch poll returns within fuel linear in the queue "
-                  "lengths). That the real tasks are WOKEN whenever the model's fixpoint makes progress is checked, not "
+                  "behind a full table), C02_settles (driving to quiescence always terminates: no settle runs out of its "
+                  "rounds or of dispatch fuel), C02_poll_total (every dispatch poll returns within fuel linear in the queue "
+                  "lengths), and C02_monitor (the executable C02 monitor that runs on the real wake-driven traces accepts "
+                  "every wake-driven run of the model; request buffer >= 1). That the real tasks are WOKEN whenever the model's fixpoint makes progress is checked, not "
                   "proved: the wake-driven correspondence polls the real client only where its real wakers fired and "
                   "requires exactly the model's outcomes after every settle; a lost wakeup shows up as a stall (the C02 "
                   "monitor rejects a dispatch that failed with a caller left pending, and an unresolved call with "
                   "nothing in flight on a writable transport).",
     "level_note": _CLIENT_NOTE + "Not modelled: wake flags / registration discipline of tokio and futures primitives "
-                  "(assumed to follow their documented contracts), OS-thread scheduling, the server and handler tasks of "
-                  "the property's quantifier (the server's Requests stream is covered by its own correspondence only in "
-                  "explicit-poll mode).",
+                  "(assumed to follow their documented contracts), OS-thread scheduling. The server's Requests stream and "
+                  "every execute() future are covered by part server-wake (polled only where their real wakers fired); "
+                  "handler-internal tasks are scripted futures.",
     "design_ref": "DESIGN.md section 6 (C02), section 0",
     "assumptions": ["a spurious wakeup is always allowed", "fewer than 2^64 operations",
                     "the wake-driven runs follow ONE fixed fair schedule (woken tasks are polled in a fixed order until "
@@ -1143,14 +1174,18 @@ _add_server_half("C14", C14_SERVER_PART, "C14server",
     "call log of Requests/MaxRequests satisfies the same contract monitor (every failed write fatal), up to the first "
     "poll that yields an error (boundary stops_after_error, refuted without it by C14_server_unrestricted_refuted; for a channel driven through tarpc's own execute() adapter the boundary is discharged: C14_exec_stops_after_error, C14_server_contract_exec over EVERY poll, coq/ServerExec.v with the futures-util TakeWhile/FilterMap/Map semantics modelled, not verified); "
     "C14_server_poll_total - no poll of the stream runs out of fuel. Tied to the real BaseChannel/MaxRequests/Requests "
-    "by the `srv` driver over the same scripted transport.",
+    "by the `srv` driver over the same scripted transport. Over the composition of the client and server models "
+    "(coq/Chain*.v, every depth, every op list, every state): C14_chain_poll_fuel - no poll of a RequestDispatch or of a "
+    "Requests stream of any node runs out of fuel; C14_chain_fuel_iff_rounds (the monitor Chain.cfuel_ok then says "
+    "exactly that no SettleAll ran out of rounds: C04_chain_rounds); the unconditional pinned form is refuted beyond the "
+    "DelayQueue range (C14_chain_fuel_pinned_refuted).",
     [SRV_ASSUME_ATOMIC, SRV_ASSUME_STOP])
 _add_server_half("C11", C11_SERVER_PART, "C11server",
     "Server half: C11_server_timers_track_requests proved (every transport: timers and request table hold the same ids "
     "in every reachable state; gauges agree after every op); the full server monitor (in_flight = yielded incarnations "
     "not yet answered, cancelled, expired or abandoned; outside the K2 class) runs on the real traces on every run and "
-    "is PROVED for every transport and op list: C11_server_monitor_rel (blocked polls exempt, unconditional) and C11_server_monitor (full strength outside the K2 class), statements ServerSpec.stmt_s11_rel / stmt_s11. K2 is a KNOWN FINDING (C11_server_K2_witness).",
-    [SRV_ASSUME_ATOMIC, SRV_ASSUME_B1])
+    "is PROVED for every transport and op list: C11_server_monitor_rel (blocked polls exempt, no class excluded) and C11_server_monitor (full strength outside the K2 class), statements ServerSpec.stmt_s11_rel / stmt_s11 (hypotheses B1 and stops_after_error inside the monitor); for a channel driven through tarpc's own execute() adapter stops_after_error is discharged: C11_server_monitor_rel_exec, C11_server_monitor_exec - only B1 (and the known class K2) remains. K2 is a KNOWN FINDING (C11_server_K2_witness).",
+    [SRV_ASSUME_ATOMIC, SRV_ASSUME_B1, SRV_ASSUME_STOP])
 _add_server_half("C10", C10_SERVER_PART, "C10server",
     "Server half: C10_server_base_end proved (BaseChannel ends only after end of stream with nothing tracked); the full "
     "server monitor (the Requests stream ends only after inbound EOF, no request in flight, and a completed flush after "
@@ -1163,7 +1198,7 @@ _add_server_half("C09", C09_SERVER_PART, "C09server",
     "and runs on the real traces on every run; for a channel driven through tarpc's own execute() adapter "
     "(take_while/filter_map/map, coq/ServerExec.v, futures-util semantics modelled and tied to the real adapter by part exec) the hypothesis stops_after_error is "
     "discharged: C09_server_monitor_exec leaves only B1.",
-    [SRV_ASSUME_ATOMIC, SRV_ASSUME_STOP])
+    [SRV_ASSUME_ATOMIC, SRV_ASSUME_B1, SRV_ASSUME_STOP])
 _add_server_half("C18", C18_SERVER_PART, "C18server",
     "Server half proved: C18_server_monitor - for EVERY transport the request handed to the application carries the id, "
     "deadline, body, trace id and sampling decision of the request read (the server's own span id is a fresh draw). "
@@ -1196,15 +1231,26 @@ SPECS["C02"]["level_text"] += (
 # the server monitor theorems (proved after the specs above were written)
 for _pid, _t in (
         ("C04", " MONITOR THEOREM proved: C04_monitor - for every transport, environment, configuration and op list the "
-                "model's run is accepted by c04_ok (hypotheses B1 and stops_after_error inside the monitor)."),
-        ("C06", " MONITOR THEOREMS proved: C06_monitor_rel (blocked polls exempt, unconditional) and C06_monitor (full "
+                "model's run is accepted by c04_ok (hypotheses B1 and stops_after_error inside the monitor); for a channel "
+                "driven through tarpc's own execute() adapter (coq/ServerExec.v, futures-util TakeWhile/FilterMap/Map "
+                "modelled) stops_after_error is discharged: C04_monitor_exec - only B1 remains."),
+        ("C06", " MONITOR THEOREMS proved: C06_monitor_rel (blocked polls exempt, no class excluded) and C06_monitor (full "
                 "strength outside the K2 class LimiterBlockedOnSink) - for every transport, environment, configuration "
-                "and op list the model's run is accepted (hypotheses B1 and stops_after_error inside the monitor)."),
+                "and op list the model's run is accepted (hypotheses B1 and stops_after_error inside the monitor); for a "
+                "channel driven through tarpc's own execute() adapter (coq/ServerExec.v, futures-util "
+                "TakeWhile/FilterMap/Map modelled) stops_after_error is discharged: C06_monitor_rel_exec, "
+                "C06_monitor_exec - only B1 (and the known class K2) remains."),
         ("C08", " MONITOR THEOREM proved: C08_monitor - for every transport, environment, configuration and op list the "
-                "model's run is accepted by c08_ok (hypotheses B1 and stops_after_error inside the monitor)."),
-        ("C12", " MONITOR THEOREMS proved: C12_monitor_rel (capacity freed earlier in the same poll exempt, "
-                "unconditional) and C12_monitor (full strength outside the K1 class FreedInSamePoll) - for every "
-                "transport, environment, configuration (L = 0 included) and op list.")):
+                "model's run is accepted by c08_ok (hypotheses B1 and stops_after_error inside the monitor); for a channel "
+                "driven through tarpc's own execute() adapter (coq/ServerExec.v, futures-util TakeWhile/FilterMap/Map "
+                "modelled) stops_after_error is discharged: C08_monitor_exec - only B1 remains."),
+        ("C12", " MONITOR THEOREMS proved: C12_monitor_rel (capacity freed earlier in the same poll exempt, no "
+                "class excluded) and C12_monitor (full strength outside the K1 class FreedInSamePoll) - for every "
+                "transport, environment, configuration (L = 0 included) and op list; clauses (a) and (b) without "
+                "hypothesis, clause (c) under B1 (inside the monitor: the count of requests possibly in flight is only "
+                "meaningful while ids are reused as B1 allows). The same through tarpc's own execute() adapter "
+                "(coq/ServerExec.v; the induced runs satisfy stops_after_error): C12_monitor_rel_exec, "
+                "C12_monitor_exec - only B1 (and the known class K1) remains.")):
     SPECS[_pid]["level_text"] += _t
 
 
@@ -1296,7 +1342,7 @@ CHAIN_NOTE_C04 = (
     "Dropped and every server's in-flight and timer gauges are 0. Untainted excludes: a dropped link end, an ended "
     "dispatch or request stream, fuel/rounds exhaustion, a disagreement of the timer-order oracle, and a head deadline "
     "above MAX_TIMEOUT (client and server clamp their timers at different instants, so a handler may run a few ms longer; "
-    "stated as an exemption). It supersedes C04_cascade_partial. The same composition is run against REAL chains of "
+    "stated as an exemption). It supersedes C04_cascade_partial (the cascade over an abstract n-node composition whose two client-side facts and one server-side fact were hypotheses; kept in Properties/C04.v for reference only). The same composition is run against REAL chains of "
     "depth 1..3 with every component polled explicitly and every wire write, yield, handler event, result and gauge "
     "compared inside Coq (Checks/Chaincheck.v). Also proved over the composition: no dispatch or stream poll of any "
     "node runs out of fuel (C14_chain_poll_fuel), the per-hop wire clause (C18_chain_wire), and SettleAll reaches a "
